@@ -168,6 +168,26 @@ def o_sign_verify(case):
         got = total(lambda: net.msg.verify(target, sig, msg), "%s: verify(%s, own signature)" % (where, name))
         if got is not True:
             _bad("msg:own-signature-rejected:" + name.replace(" ", "-"), "%s: verify(%s, %r, msg) = %r" % (where, name, sig, got))
+    # the signer's public key held as one of the library's other key objects (what a wallet file or parsed text gives):
+    # the same point, so the same verdict.  One case in four; Electrum keys are uncompressed by definition.
+    if d % 4 == 1:
+        sec = M.sec(Q, comp) if hasattr(M, "sec") else None
+        others = [("keys.public(pair)", lambda: net.keys.public((Q[0], Q[1]), is_compressed=comp))]
+        if not comp:
+            mpk = Q[0].to_bytes(32, "big") + Q[1].to_bytes(32, "big")
+            others += [("keys.electrum_public(master_public_key)", lambda: net.keys.electrum_public(master_public_key=mpk)),
+                       ("parse.electrum_pub(E:hex)", lambda: net.parse.electrum_pub("E:" + mpk.hex())),
+                       ("keys.electrum_private(d).public_copy()", lambda: net.keys.electrum_private(master_private_key=d).public_copy())]
+        else:
+            others += [("keys.bip32_seed-less node", lambda: net.keys.bip32_deserialize(
+                b"\0\0\0\0" + b"\0" * 9 + b"\x11" * 32 + bytes([2 + (Q[1] & 1)]) + Q[0].to_bytes(32, "big")))]
+        for name, mk in others:
+            target = total(mk, "%s: building %s" % (where, name))
+            if target is None:
+                continue
+            got = total(lambda: net.msg.verify(target, sig, msg), "%s: verify(%s, own signature)" % (where, name))
+            if got is not True:
+                _bad("msg:own-signature-rejected:other-key-object", "%s: verify(<%s of the signer's point>, %r, msg) = %r" % (where, name, sig, got))
     pair, flag = net.msg.pair_for_message_hash(sig, z)
     if tuple(pair) != Q:
         _bad("msg:recovered-key!=signer", "%s: pair_for_message_hash gives %r, signer is %r" % (where, tuple(pair), Q))
